@@ -1087,6 +1087,10 @@ func (v *VMValue) AttrSet(ctx *Context, name string, val *VMValue) *VMValue {
 		return val
 	case VMTypeNativeObject:
 		od, _ := v.ReadNativeObjectData()
+		if od == nil || od.AttrSet == nil {
+			ctx.Error = errors.New("此原生对象不支持设置属性")
+			return nil
+		}
 		od.AttrSet(ctx, name, val)
 		return val
 	}
@@ -1152,6 +1156,10 @@ func (v *VMValue) AttrGet(ctx *Context, name string) *VMValue {
 		return ret
 	case VMTypeNativeObject:
 		od, _ := v.ReadNativeObjectData()
+		if od == nil || od.AttrGet == nil {
+			ctx.Error = errors.New("此原生对象不支持读取属性")
+			return nil
+		}
 		ret := od.AttrGet(ctx, name)
 		if ret != nil {
 			return ret
@@ -1205,6 +1213,10 @@ func (v *VMValue) ItemGet(ctx *Context, index *VMValue) *VMValue {
 		}
 	case VMTypeNativeObject:
 		od, _ := v.ReadNativeObjectData()
+		if od == nil || od.ItemGet == nil {
+			ctx.Error = errors.New("此原生对象不支持取下标")
+			return nil
+		}
 		ret := od.ItemGet(ctx, index)
 		if ret == nil {
 			ret = NewNullVal()
@@ -1234,6 +1246,10 @@ func (v *VMValue) ItemSet(ctx *Context, index *VMValue, val *VMValue) bool {
 		}
 	case VMTypeNativeObject:
 		od, _ := v.ReadNativeObjectData()
+		if od == nil || od.ItemSet == nil {
+			ctx.Error = errors.New("此原生对象不支持设置下标")
+			return false
+		}
 		od.ItemSet(ctx, index, val)
 		if ctx.Error == nil {
 			return true
